@@ -15,7 +15,8 @@ def jCfg (j : Json) : Except String EulerCfg := do
          tol := ← match fieldD j "tol" .null with
            | .null => pure none
            | v => do pure (some (← jRat v)),
-         raiseKeys := ← jList jRat (fieldD j "raise" (.arr #[])) }
+         raiseKeys := ← jList jRat (fieldD j "raise" (.arr #[])),
+         zeroDivKeys := ← jList jRat (fieldD j "zerodiv" (.arr #[])) }
 
 def jProto (j : Json) : Except String Protocol := jList (jPair jRat jRow) j
 
